@@ -185,6 +185,47 @@ def check(ctx, build=None):
                         break
                 if found:
                     break
+        # ---- fixed probe packages: shapes that reach the translator's internal failure paths, method values, conversions to interfaces
+        #      in recursive functions. If goose accepts the package, every top-level function is defined exactly once and every
+        #      definition mentions only definitions above it (never itself as a global).
+        import c07
+        probes = dict(("panic-site:" + k, v) for k, v in c07.PROBES.items())
+        probes["method-value-before-method"] = ("type MV struct {\n\tv uint64\n}\n\nfunc UseMV(s MV) uint64 {\n\tg := s.Late\n\treturn g()\n}\n\n"
+                                                "func CallsDirect(s MV) uint64 {\n\treturn s.Late() + 1\n}\n\nfunc (s MV) Late() uint64 {\n\treturn s.v\n}\n")
+        probes["interface-argument-in-recursion"] = ("type Shape interface {\n\tArea() uint64\n}\n\ntype Sq struct {\n\tside uint64\n}\n\nfunc (s Sq) Area() uint64 {\n\treturn s.side\n}\n\n"
+                                                     "func Caller() uint64 {\n\treturn Measure(Sq{side: 2})\n}\n\nfunc Measure(s Shape) uint64 {\n\treturn s.Area()\n}\n\n"
+                                                     "func Steps(s Shape, n uint64) uint64 {\n\tif n == 0 {\n\t\treturn 0\n\t}\n\treturn Steps(Sq{side: n}, n-1) + 1\n}\n")
+        for pid, psrc in sorted(probes.items()):
+            root = os.path.join(scratch, "probe")
+            gomod.write_module(root, {"p": {"p.go": "package p\n\n" + psrc}})
+            rc, gerr, text = k4.translate(root, flags=())
+            stats["probe_packages"] += 1
+            shutil.rmtree(root, ignore_errors=True)
+            if rc != 0 or text is None:
+                stats["probe_packages_rejected"] += 1
+                continue
+            reps = k4.gl_session(text, ["names"])
+            if reps[0].startswith("parse-error"):
+                continue          # (well-formedness is C05's subject)
+            order = reps[1][6:].split(",") if reps[1] != "names -" else []
+            funcs = re.findall(r"^func (\w+)\(", psrc, re.M)
+            funcs = [f for f in funcs if f not in ("_", "init")]
+            missing = [f for f in funcs if order.count(f) != 1]
+            if missing:
+                viol("C04: goose accepts the package, but a top-level function has no definition (or more than one)",
+                     {"proto": "c04-probe", "probe": pid, "source": "package p\n\n" + psrc}, {"each_defined_once": funcs}, {"missing_or_repeated": missing, "definitions": order})
+            if pid.endswith(":mutual_recursion"):
+                continue          # a cyclic dependency graph: the order clause speaks about acyclic ones only
+            us = k4.gl_session(text, ["usesord " + n for n in order])[1:]
+            pos = {}
+            for i, n in enumerate(order):
+                pos.setdefault(n, i)
+            for i, n in enumerate(order):
+                ms = us[i][8:].split(",") if us[i].startswith("usesord ") and us[i] != "usesord -" else []
+                late = [u for u in ms if u in pos and pos[u] >= i]
+                if late:
+                    viol("C04: a definition mentions a definition that is not above it (or itself as a global)",
+                         {"proto": "c04-probe", "probe": pid, "source": "package p\n\n" + psrc, "emitted": k4.emitted_def(text, n)}, "only definitions above", {"definition": n, "mentions": late, "order": order})
         # ---- re-translating over an older output file: still exactly one definition per declaration
         found = gomod.retranslate_stream(ctx, scratch, "C04: the output file holds more or other definitions than the package", found)
     finally:
